@@ -3,10 +3,12 @@
 tier=${1:-quick}; seed=${2:-0}; shift 2
 ids=${@:-C01 C02 C03 C04 C05 C06 C07 C08 C09 C10 C11 C12 C13 C14 C15 C16 C17 C18 C19 C20}
 cd "$(dirname "$0")/../.."
+logd=$(mktemp -d /tmp/runall.XXXXXX)
 for p in $ids; do
   s=$(date +%s)
-  VERIF_SEED=$seed timeout 7200 tools/check $p $tier > /tmp/runall_$p.log 2>&1
+  VERIF_SEED=$seed timeout 7200 tools/check $p $tier > $logd/$p.log 2>&1
   rc=$?
-  echo "$p rc=$rc $(( $(date +%s) - s ))s $(grep -v KNOWN /tmp/runall_$p.log | tail -1)"
-  grep '^VIOLATION' /tmp/runall_$p.log
+  echo "$p rc=$rc $(( $(date +%s) - s ))s $(grep -v KNOWN $logd/$p.log | tail -1)"
+  grep '^VIOLATION' $logd/$p.log
 done
+echo "logs in $logd"
